@@ -198,8 +198,10 @@ func (c *converter) ProgramEnd() error {
 			`set /A "_i=!_i!+1"`,
 			"goto :_sah_loop",
 			") else (",
+			`if !_len! leq %2 (`, // Only an index beyond the end extends the slice.
 			`set /A "_len=%2+1"`,
 			c.callFuncString(sliceLenSetHelper, []string{}, "!%1!", "!_len!"),
+			")",
 			")",
 			c.sliceAssignmentString("!%1!", "%2", fmt.Sprintf("!%s!", funcArgVar(0)), false),
 		)
